@@ -12,7 +12,7 @@ use std::panic::{catch_unwind, AssertUnwindSafe};
 pub fn run_stream(ctx: &mut Ctx, name: &str) {
 	match name {
 		"compact" => compact_stream(ctx),
-		"enc" | "rt" | "mut" | "rand" | "exh" | "cut" | "decall" | "skip" | "count" | "limit" | "mem" | "stacks" | "mel" =>
+		"enc" | "rt" | "mut" | "rand" | "exh" | "cut" | "decall" | "skip" | "count" | "limit" | "mem" | "stacks" | "mel" | "sinks" =>
 			catalogue::run_all(ctx, name),
 		"wrapops" => wrapops_stream(ctx),
 		"len" => len_stream(ctx),
@@ -21,6 +21,7 @@ pub fn run_stream(ctx: &mut Ctx, name: &str) {
 			concat_stream(ctx);
 		},
 		"big" => big_stream(ctx),
+		"bulk" => bulk_stream(ctx),
 		"append" => crate::append::append_stream(ctx),
 		"utf8" => utf8_stream(ctx),
 		other => panic!("unknown stream {}", other),
@@ -704,6 +705,13 @@ pub fn run_type<T: Cat + DecodeAll + DecodeLimit>(ctx: &mut Ctx, stream: &str, n
 				crate::stacks::run_stacks::<T>(ctx, name, &bs, seed);
 			}
 		},
+		"sinks" => {
+			for _ in 0..n_vals {
+				g.budget = o.budget;
+				let v = T::gen(&mut g);
+				sinks_case(ctx, name, &v, &format!("enc4 {} {}", T::ty(8), val_string(&v, false)), g.rng.next());
+			}
+		},
 		"exh" => {
 			let mut strings: Vec<Vec<u8>> = vec![vec![]];
 			for a in 0..=255u8 {
@@ -1184,4 +1192,163 @@ pub fn run_mel_type<T: Cat>(ctx: &mut Ctx, name: &'static str, o: &TypeOpts, mel
 	if longest == m {
 		ctx.count("mel:types-where-maximum-was-attained", 1);
 	}
+}
+
+// ---------------------------------------------------------------------------------------------
+// Entry points and sinks (C07)
+// ---------------------------------------------------------------------------------------------
+
+/// An `io::Write` that accepts only 1..=7 bytes per `write` call (exercises `write_all`).
+struct Dribble {
+	out: Vec<u8>,
+	rng: Rng,
+}
+impl std::io::Write for Dribble {
+	fn write(&mut self, buf: &[u8]) -> std::io::Result<usize> {
+		let n = (1 + self.rng.below(7) as usize).min(buf.len());
+		self.out.extend_from_slice(&buf[..n]);
+		Ok(n)
+	}
+	fn flush(&mut self) -> std::io::Result<()> {
+		Ok(())
+	}
+}
+
+pub fn sinks_case<T: Encode + ?Sized>(ctx: &mut Ctx, name: &str, v: &T, req: &str, seed: u64) {
+	let r = catch_unwind(AssertUnwindSafe(|| {
+		let a = v.encode();
+		let mut b = Vec::new();
+		v.encode_to(&mut b);
+		let mut d = Dribble { out: vec![], rng: Rng::new(seed) };
+		v.encode_to(&mut d);
+		let mut e: Vec<u8> = Vec::new();
+		{
+			let dynout: &mut dyn parity_scale_codec::Output = &mut e;
+			v.encode_to(dynout);
+		}
+		let u = v.using_encoded(|s| s.to_vec());
+		let n = v.encoded_size();
+		(a, b, d.out, e, u, n)
+	}));
+	match r {
+		Ok((a, b, d, e, u, n)) => {
+			// oracle (C07): all entry points and sinks describe the same byte string
+			if a != b || a != d || a != e || a != u || a.len() != n {
+				ctx.oracle_fail("C07", format!("{}: entry points disagree: encode={} encode_to(Vec)={} encode_to(io::Write)={} encode_to(dyn Output)={} using_encoded={} encoded_size={}",
+					name, hex_or_dash(&a), hex_or_dash(&b), hex_or_dash(&d), hex_or_dash(&e), hex_or_dash(&u), n));
+			}
+			ctx.emit("sinks", name, req, &format!("{} {} {}", hex_or_dash(&a), hex_or_dash(&u), n));
+		},
+		Err(_) => ctx.emit("sinks", name, req, "panic"),
+	}
+}
+
+fn bulk_lengths<T>(thorough: bool) -> Vec<usize> {
+	let sz = core::mem::size_of::<T>().max(1);
+	let c = 16384 / sz;
+	let mut v = vec![0, 1, 2, 3, 17, c - 1, c, c + 1, 2 * c + 1];
+	if thorough {
+		v.extend((0..64).map(|i| i * 97 % (3 * c + 2)));
+		v.extend_from_slice(&[2 * c - 1, 2 * c, 3 * c - 1, 3 * c, 3 * c + 1]);
+	}
+	v
+}
+
+fn bulk_for<T: Cat + Clone + DecodeAll + DecodeLimit>(ctx: &mut Ctx, name: &'static str) {
+	use crate::derived::Twin;
+	use std::collections::VecDeque;
+	let mut g = G::new(ctx.seed ^ 0xB01C ^ name.len() as u64, 4);
+	for n in bulk_lengths::<T>(ctx.tier_thorough) {
+		let xs: Vec<T> = (0..n).map(|_| T::gen(&mut g)).collect();
+		let tw: Vec<Twin<T>> = xs.iter().cloned().map(Twin).collect();
+		// a wrapped deque: rotate so that the contents straddle the end of the ring buffer
+		let mut dq: VecDeque<T> = VecDeque::with_capacity(n + 3);
+		for x in xs.iter().rev().take(n / 2) {
+			dq.push_front(x.clone());
+		}
+		for x in xs.iter().take(n - n / 2) {
+			dq.push_back(x.clone());
+		}
+		// logical content of dq = reversed(second-half-from-rev) ++ first (n - n/2) elements
+		let dq_logical: Vec<T> = dq.iter().cloned().collect();
+		let dq_tw: Vec<Twin<T>> = dq_logical.iter().cloned().map(Twin).collect();
+		let e_vec = xs.encode();
+		let e_slice = (&xs[..]).encode();
+		let e_tw = tw.encode();
+		let e_dq = dq.encode();
+		let e_dq_tw = dq_tw.encode();
+		// oracle (C07): bulk == element-wise
+		if e_vec != e_tw || e_slice != e_tw {
+			ctx.oracle_fail("C07", format!("{}: bulk encoding of {} elements differs from the element-wise twin", name, n));
+		}
+		if e_dq != e_dq_tw {
+			ctx.oracle_fail("C07", format!("{}: VecDeque (wrapped: {}) encoding of {} elements differs from the element-wise twin", name, dq.as_slices().1.len() > 0, n));
+		}
+		let seed = g.rng.next();
+		sinks_case(ctx, name, &xs, &format!("enc4 {} {}", Vec::<T>::ty(2), val_string(&xs, false)), seed);
+		sinks_case(ctx, name, &tw, &format!("enc4 {} {}", Vec::<Twin<T>>::ty(2), val_string(&tw, false)), seed);
+		sinks_case(ctx, name, &dq, &format!("enc4 {} {}", VecDeque::<T>::ty(2), val_string(&dq, false)), seed);
+		// decoding: the same bytes through the bulk and the element-wise decoder
+		let mut bs = e_vec.clone();
+		if n % 3 == 1 {
+			bs.pop();
+		} else if n % 3 == 2 {
+			bs.push(0x5a);
+		}
+		let (a1, d1) = dec_answer::<Vec<T>>(&bs);
+		let (a2, d2) = dec_answer::<Vec<Twin<T>>>(&bs);
+		ctx.emit("bulk-dec", name, &format!("dec {} {}", Vec::<T>::ty(2), hex_or_dash(&bs)), &a1);
+		ctx.emit("bulk-dec", name, &format!("dec {} {}", Vec::<Twin<T>>::ty(2), hex_or_dash(&bs)), &a2);
+		let same = match (&d1, &d2) {
+			(Some((v1, r1)), Some((v2, r2))) => r1 == r2 && v1.len() == v2.len() && v1.iter().zip(v2.iter()).all(|(a, b)| val_string(a, true) == val_string(&b.0, true)),
+			(None, None) => a1 == a2,
+			_ => false,
+		};
+		if !same {
+			ctx.oracle_fail("C07", format!("{}: bulk decoding of {} and element-wise decoding disagree: {} vs {}", name, &hex_or_dash(&bs)[..hex_or_dash(&bs).len().min(40)], &a1[..a1.len().min(40)], &a2[..a2.len().min(40)]));
+		}
+	}
+	// arrays: bulk read vs element-wise twin
+	macro_rules! arr {
+		($n:expr) => {{
+			let xs: [T; $n] = core::array::from_fn(|_| T::gen(&mut g));
+			let tw: [Twin<T>; $n] = core::array::from_fn(|i| Twin(xs[i].clone()));
+			if xs.encode() != tw.encode() {
+				ctx.oracle_fail("C07", format!("{}: array [T; {}] bulk encoding differs from the element-wise twin", name, $n));
+			}
+			let seed = g.rng.next();
+			sinks_case(ctx, name, &xs, &format!("enc4 {} {}", <[T; $n]>::ty(2), val_string(&xs, false)), seed);
+			let mut bs = xs.encode();
+			if $n % 2 == 1 {
+				bs.pop();
+			}
+			let (a1, d1) = dec_answer::<[T; $n]>(&bs);
+			let (a2, d2) = dec_answer::<[Twin<T>; $n]>(&bs);
+			ctx.emit("bulk-dec", name, &format!("dec {} {}", <[T; $n]>::ty(2), hex_or_dash(&bs)), &a1);
+			ctx.emit("bulk-dec", name, &format!("dec {} {}", <[Twin<T>; $n]>::ty(2), hex_or_dash(&bs)), &a2);
+			if d1.is_some() != d2.is_some() {
+				ctx.oracle_fail("C07", format!("{}: array [T; {}] bulk and element-wise decoding disagree on success", name, $n));
+			}
+		}};
+	}
+	arr!(0);
+	arr!(1);
+	arr!(7);
+	arr!(32);
+	arr!(33);
+}
+
+fn bulk_stream(ctx: &mut Ctx) {
+	bulk_for::<u8>(ctx, "u8");
+	bulk_for::<i8>(ctx, "i8");
+	bulk_for::<u16>(ctx, "u16");
+	bulk_for::<i16>(ctx, "i16");
+	bulk_for::<u32>(ctx, "u32");
+	bulk_for::<i32>(ctx, "i32");
+	bulk_for::<u64>(ctx, "u64");
+	bulk_for::<i64>(ctx, "i64");
+	bulk_for::<u128>(ctx, "u128");
+	bulk_for::<i128>(ctx, "i128");
+	bulk_for::<f32>(ctx, "f32");
+	bulk_for::<f64>(ctx, "f64");
 }
